@@ -4,7 +4,7 @@
    suites, not proved).  Only statements here; proofs live in Proofs/C36.v. *)
 From Coq Require Import List NArith ZArith Bool Lia String.
 From GoGit Require Import Base.Out Gen.C36 Model.RefSpec Model.RevList Model.PushRules Model.FetchProto
-     Spec.ObjReach Proofs.C38 Proofs.C36 Proofs.C36Refspec Proofs.C36Gen.
+     Spec.ObjReach Proofs.C38 Proofs.C36 Proofs.C36Refspec Proofs.C36Gen Proofs.C36V2.
 Import ListNotations.
 
 (* the negotiation constants of the model are the ones in negotiate.go
@@ -82,6 +82,36 @@ Theorem C36_complete : forall server sh wants common pack (held : oid -> Prop),
 Proof. exact fetch_complete. Qed.
 Print Assumptions C36_complete.
 
+(* the protocol-v2 server and an ALREADY SHALLOW client (it sent shallow lines):
+   the pack is selected against the boundary the response announces — the new
+   boundary when a deepen was computed, and an EMPTY new boundary means the
+   whole history; the client's old boundary only when no deepen was asked for.
+   Whatever the wants reach down to that boundary is in the pack or is what the
+   client's haves reach down to its old boundary (what it holds).  So a client
+   that is told to unshallow its old boundary receives the history below it. *)
+Theorem C36_v2_deepen_covers : forall fuel st wants haves c0 cs depth out,
+  wf_store st = true ->
+  serve_fetch_v2 fuel st wants haves (c0 :: cs) depth = Ok out ->
+  exists have_new newb,
+    (vo_shallow out = None <-> have_new = false) /\
+    (forall shl un, vo_shallow out = Some (shl, un) -> shl = newb) /\
+    forall o, reach_set st (v2_boundary (c0 :: cs) have_new newb) wants o ->
+              In o (vo_objs out) \/ reach_set st (c0 :: cs) haves o.
+Proof. exact v2_shallow_client_covers. Qed.
+Print Assumptions C36_v2_deepen_covers.
+
+(* ... and a client that is not shallow gets everything the wants reach and its
+   haves do not, down to the boundary announced (none: full history) *)
+Theorem C36_v2_plain_covers : forall fuel st wants haves depth out,
+  wf_store st = true ->
+  serve_fetch_v2 fuel st wants haves [] depth = Ok out ->
+  exists boundary,
+    (forall shl un, vo_shallow out = Some (shl, un) -> shl = boundary /\ un = []) /\
+    (vo_shallow out = None -> boundary = []) /\
+    forall o, reach_set st boundary wants o -> ~ reach_set st boundary haves o -> In o (vo_objs out).
+Proof. exact v2_plain_client_covers. Qed.
+Print Assumptions C36_v2_plain_covers.
+
 (* getShallowCommits: what it reports lies where it says — a commit listed as
    shallow is depth-1 (or more) parent steps from a wanted commit, a commit
    listed as not shallow is closer than that *)
@@ -136,6 +166,16 @@ Example C36_roundtrip_default :
   rs_dst s (s2b "refs/heads/feat/x"%string) = s2b "refs/remotes/origin/feat/x"%string /\
   rs_dst (rs_reverse s) (s2b "refs/remotes/origin/feat/x"%string) = s2b "refs/heads/feat/x"%string.
 Proof. vm_compute. repeat split; reflexivity. Qed.
+
+(* deepening to the root: 3 <- 4 <- 5 <- 6, the client cloned 6 with depth 1 (shallow at 6) and asks for
+   depth 10: the new boundary is empty, the pack carries commits 3, 4, 5 (their tree and blob are held already)
+   and the client is told to unshallow 6 *)
+Example C36_v2_deepen_to_root :
+  serve_fetch_v2 200 [(1, Blob); (2, Tree [mkE 97 KFile 1]); (3, Commit 2 [] 1%Z); (4, Commit 2 [3] 2%Z);
+                      (5, Commit 2 [4] 3%Z); (6, Commit 2 [5] 4%Z)]%N [6%N] [6%N] [6%N] 10
+  = Ok (mkV2 [3; 4; 5]%N (Some ([], [6%N]))) /\
+  update_shallow [6%N] (Some ([], [6%N])) = [].
+Proof. vm_compute. split; reflexivity. Qed.
 
 (* a linear history: depth 2 from commit 5 (5 -> 4 -> 3) gives the boundary {4} and the interior {5} *)
 Example C36_shallow_linear :
